@@ -441,21 +441,21 @@ T.update({
   summary="udp SmallPeerMap::extract_response_peers lost its limit parameter and returns every inline peer",
   needs="a torrent in the inline representation with two peers other than the announcer and an effective limit of 1 (numwant 1 or max_response_peers 1)",
   demo="demo/crates/udp/tests/seeded_demo.rs",
-  caught_by=[caught("C02", "random", "peer-list-too-long")],
+  caught_by=[caught("C02", "random", "peer-list-over-limit")],
  ),
  "C04d": dict(
   worktree="/tmp/seed7-C04",
   summary="udp scrape collects one shard read guard per requested hash up front and keeps them to the end: recursive read lock on a parking_lot RwLock",
   needs="a scrape naming two hashes of one shard (or two scrapes naming shards in opposite order) and a writer (announce of an unknown torrent, cleaning phase 2) arriving between the two acquisitions: deadlock",
   demo="demo/crates/udp/tests/seeded_demo.rs",
-  caught_by=[caught("C04", "programs / deadlock-hunt", "see results_lines")],
+  caught_by=[caught("C04", "stress", "deadlock", note="the free-running bursts hit the window (scrape of two hashes of one shard against a pending writer); in the owned-schedule driver the probe scrape:next_hash now fires with a lock held, which that driver reports as undecided (running thread blocked on a parked one), not as a violation")],
  ),
  "C08d": dict(
   worktree="/tmp/seed7-C08",
   summary="ws storage: the ownership check is applied only while the stored entry's valid_until is still in the future",
   needs="an entry that has outlived max_peer_age but has not been cleaned yet, and an announce with its peer id from another connection in that window",
   demo="demo/crates/ws/tests/seeded_demo.rs",
-  caught_by=[caught("C08", "hist", "see results_lines")],
+  caught_by=[caught("C08", "hist", "non-owner-announce-answered")],
  ),
  "C09d": dict(
   worktree="/tmp/seed7-C09",
